@@ -47,11 +47,12 @@ APP_ACTIONS = {
     'send_pong': lambda ws: ws.send_pong(b'u'),
     'close': lambda ws: ws.close(1000, 'goodbye'),      # explicit arguments: the defaults are not part of any property
     'close-3001': lambda ws: ws.close(3001, 'app'),
+    'close-none': lambda ws: ws.close(None, ''),          # a Close frame without a status code (empty payload)
     'send_text!fail': lambda ws: (W.current().fail_sendall.append(OSError(32, 'Broken pipe (injected)')), ws.send_text('hi')),
 }
 APP_FRAMES = {
     'send_text': (TEXT, b'hi'), 'send_binary': (BINARY, b'\x00\x01'), 'send_ping': (PING, b'k'), 'send_pong': (PONG, b'u'),
-    'close': (CLOSE, ref_ws.close_payload(1000, b'goodbye')), 'close-3001': (CLOSE, ref_ws.close_payload(3001, b'app')),
+    'close': (CLOSE, ref_ws.close_payload(1000, b'goodbye')), 'close-3001': (CLOSE, ref_ws.close_payload(3001, b'app')), 'close-none': (CLOSE, b''),
 }
 
 
